@@ -573,7 +573,12 @@ fn ev(e: &Ex, mu: &Mu, ds: &Ds, g: &Option<T>) -> Result<Result<T, ()>, OErr> {
         // all of which may mention variables of mu that occur in no triple pattern) the substitution is carried out
         Ex::Exists(p) => {
             fn simple(p: &Pat) -> bool { match p { Pat::Bgp(_) => true, Pat::Union(l, r) => simple(l) && simple(r), Pat::Graph(_, i) => simple(i), _ => false } }
-            let by_substitution = || -> Result<bool, OErr> { let q = subst_pat(p, mu)?; Ok(!eval(&q, ds, g)?.is_empty()) };
+            // the shape of the known finding EXISTS-SUBSELECT-DROPS-OUTER, met with a solution that binds the dropped variable
+            if let Some(vs) = subselect_chain(p) { let mut reads = BTreeSet::new(); chain_reads(p, &mut reads); if reads.iter().any(|v| mu.contains_key(v) && !vs.contains(v)) { SUBSELECT_DROPS_OUTER.with(|f| f.set(true)) } }
+            let by_substitution = || -> Result<bool, OErr> {
+                let q = if ENGINE_PROJECT_READING.with(|f| f.get()) && subselect_chain(p).is_some() { subst_chain_dropping(p, mu)? } else { subst_pat(p, mu)? };
+                Ok(!eval(&q, ds, g)?.is_empty())
+            };
             if simple(p) {
                 let sols = eval(p, ds, g)?;
                 let compatible = sols.iter().any(|nu| nu.iter().all(|(v, t)| mu.get(v).map_or(true, |x| x == t)));
@@ -586,8 +591,9 @@ fn ev(e: &Ex, mu: &Mu, ds: &Ds, g: &Option<T>) -> Result<Result<T, ()>, OErr> {
 }
 /// substitute(pattern, mu) of 18.6: every variable of dom(mu) is replaced by its value EVERYWHERE in the pattern -- triple
 /// patterns (also inside quoted triple patterns), the name of GRAPH, FILTER / BIND / ORDER BY expressions, nested EXISTS.
-/// Left undetermined: BIND to a variable of dom(mu) (BIND(e AS <constant>) is not a pattern) and sub-selects (the
-/// Recommendation's substitute ignores the scope of projected-away variables; errata query-20 ff.)
+/// Left undetermined: BIND to a variable of dom(mu) (BIND(e AS <constant>) is not a pattern) and sub-selects that HIDE a
+/// variable of dom(mu) (the Recommendation's substitute ignores the scope of projected-away variables; errata query-20 ff.);
+/// a sub-select in which every variable of dom(mu) that occurs is projected is decided (see the Project arm)
 fn subst_tp(p: &TP, mu: &Mu) -> TP {
     match p {
         TP::Var(v) => match mu.get(v) { Some(t) => TP::Const(t.clone()), None => p.clone() },
@@ -623,9 +629,76 @@ fn subst_pat(p: &Pat, mu: &Mu) -> Result<Pat, OErr> {
         Pat::OrderBy(i, es) => Pat::OrderBy(bp(i)?, es.iter().map(|e| subst_ex(e, mu)).collect::<Result<_, _>>()?),
         Pat::Distinct(i) => Pat::Distinct(bp(i)?),
         Pat::Slice(i, s, l) => Pat::Slice(bp(i)?, *s, *l),
-        Pat::Project(..) => return Err(OErr::Undetermined("EXISTS over a sub-select".into())),
+        // A sub-select.  The variables of its body that its projection hides are local to it (18.2.1), while substitute, read
+        // to the letter, would replace them too (errata query-20 ff.): undetermined as soon as a variable of dom(mu) occurs
+        // inside the sub-select without being projected.  Otherwise every variable of dom(mu) that occurs inside is projected,
+        // i.e. it IS the outer variable, and is replaced in the body; the projection keeps its names (no solution of the
+        // substituted body binds a replaced variable, so projecting on it changes nothing).  In particular a sub-select
+        // that mentions no variable of dom(mu) is left as it is, and the operators of the group around it are substituted.
+        Pat::Project(i, vs) => {
+            let mut inside = BTreeSet::new(); pat_all_vars(i, &mut inside);
+            if inside.iter().any(|v| mu.contains_key(v) && !vs.contains(v)) { return Err(OErr::Undetermined("EXISTS over a sub-select that hides a variable bound outside".into())) }
+            Pat::Project(bp(i)?, vs.clone())
+        }
         Pat::Unsup(k) => Pat::Unsup(*k),
     })
+}
+/// every variable that occurs anywhere in a pattern / an expression (nested EXISTS groups and sub-selects included)
+fn ex_all_vars(e: &Ex, out: &mut BTreeSet<String>) {
+    match e { Ex::Var(v) | Ex::Bound(v) => { out.insert(v.clone()); } Ex::Not(a) | Ex::Un(_, a) => ex_all_vars(a, out), Ex::Or(a, b) | Ex::And(a, b) | Ex::Bin(_, a, b) => { ex_all_vars(a, out); ex_all_vars(b, out) }
+        Ex::Exists(p) => pat_all_vars(p, out), Ex::Const(_) | Ex::Other(_) => {} }
+}
+fn pat_all_vars(p: &Pat, out: &mut BTreeSet<String>) {
+    match p {
+        Pat::Bgp(ps) => ps.iter().for_each(|t| t.iter().for_each(|x| tp_vars(x, out))),
+        Pat::Filter(e, i) => { ex_all_vars(e, out); pat_all_vars(i, out) }
+        Pat::Union(l, r) => { pat_all_vars(l, out); pat_all_vars(r, out) }
+        Pat::Graph(n, i) => { if let NP::Var(v) = n { out.insert(v.clone()); } pat_all_vars(i, out) }
+        Pat::Extend(i, v, e) => { out.insert(v.clone()); ex_all_vars(e, out); pat_all_vars(i, out) }
+        Pat::OrderBy(i, es) => { es.iter().for_each(|e| ex_all_vars(e, out)); pat_all_vars(i, out) }
+        Pat::Project(i, vs) => { out.extend(vs.iter().cloned()); pat_all_vars(i, out) }
+        Pat::Distinct(i) | Pat::Slice(i, _, _) => pat_all_vars(i, out),
+        Pat::Unsup(_) => {}
+    }
+}
+// ---------- the known finding EXISTS-SUBSELECT-DROPS-OUTER ----------
+// exec.rs evaluates EXISTS by handing the outer solution down as initial binding; `project` then retains the projected
+// variables only, the pre-bound ones included, so the FILTER / BIND of the group ABOVE a sub-select read the outer variables
+// the sub-select does not project as unbound.  18.6 replaces them by their values everywhere in the group.
+thread_local! {
+    /// set by the oracle when it evaluates an EXISTS of exactly that shape for a solution that binds such a variable
+    static SUBSELECT_DROPS_OUTER: std::cell::Cell<bool> = std::cell::Cell::new(false);
+    /// measuring device (never used for a verdict): evaluate groups of that shape the way the engine does; a failure carries
+    /// the tag only when this reading reproduces the engine's answer
+    static ENGINE_PROJECT_READING: std::cell::Cell<bool> = std::cell::Cell::new(false);
+}
+/// the group is a chain of FILTER / BIND / GRAPH / DISTINCT / ORDER BY / OFFSET-LIMIT over ONE sub-select: its projection
+fn subselect_chain(p: &Pat) -> Option<&Vec<String>> {
+    match p { Pat::Project(_, vs) => Some(vs), Pat::Filter(_, i) | Pat::Extend(i, _, _) | Pat::Graph(_, i) | Pat::Distinct(i) | Pat::OrderBy(i, _) | Pat::Slice(i, _, _) => subselect_chain(i), _ => None }
+}
+/// the variables read by the FILTER / BIND expressions of the chain above the sub-select (outside nested EXISTS groups)
+fn chain_reads(p: &Pat, out: &mut BTreeSet<String>) {
+    match p { Pat::Filter(e, i) | Pat::Extend(i, _, e) => { ex_vars(e, out); chain_reads(i, out) } Pat::Graph(_, i) | Pat::Distinct(i) | Pat::OrderBy(i, _) | Pat::Slice(i, _, _) => chain_reads(i, out), _ => {} }
+}
+/// the engine's reading of such a group: the sub-select itself sees all of mu, the expressions above it only what it projects
+fn subst_chain_dropping(p: &Pat, mu: &Mu) -> Result<Pat, OErr> {
+    let vs = subselect_chain(p).expect("a chain over a sub-select");
+    let kept: Mu = mu.iter().filter(|(k, _)| vs.contains(k)).map(|(k, v)| (k.clone(), v.clone())).collect();
+    fn go(p: &Pat, mu: &Mu, kept: &Mu) -> Result<Pat, OErr> {
+        let bp = |x: &Pat| -> Result<Box<Pat>, OErr> { Ok(Box::new(go(x, mu, kept)?)) };
+        Ok(match p {
+            Pat::Project(..) => subst_pat(p, mu)?,
+            Pat::Filter(e, i) => Pat::Filter(subst_ex(e, kept)?, bp(i)?),
+            Pat::Extend(i, v, e) => { if mu.contains_key(v) { return Err(OErr::Undetermined("EXISTS: BIND inside the group to a variable bound outside".into())) } Pat::Extend(bp(i)?, v.clone(), subst_ex(e, kept)?) }
+            Pat::Graph(NP::Var(v), i) => match mu.get(v) { Some(T::Iri(n)) => Pat::Graph(NP::Const(n.clone()), bp(i)?), Some(t) => Pat::Graph(NP::Term(t.clone()), bp(i)?), None => Pat::Graph(NP::Var(v.clone()), bp(i)?) },
+            Pat::Graph(n, i) => Pat::Graph(n.clone(), bp(i)?),
+            Pat::OrderBy(i, es) => Pat::OrderBy(bp(i)?, es.iter().map(|e| subst_ex(e, kept)).collect::<Result<_, _>>()?),
+            Pat::Distinct(i) => Pat::Distinct(bp(i)?),
+            Pat::Slice(i, s, l) => Pat::Slice(bp(i)?, *s, *l),
+            Pat::Bgp(_) | Pat::Union(..) | Pat::Unsup(_) => unreachable!("not a chain over a sub-select"),
+        })
+    }
+    go(p, mu, &kept)
 }
 /// eval(D(G), pattern) as a multiset
 fn eval(p: &Pat, ds: &Ds, g: &Option<T>) -> Result<Vec<Mu>, OErr> {
@@ -1212,6 +1285,19 @@ fn directed() -> Vec<(&'static str, usize, String)> {
         ("nested-slice", 1, "SELECT * { { ?s <tag:q> ?o } UNION { { SELECT ?s { ?s <tag:p> ?o } LIMIT 7 } } }".into()),
         ("nested-slice", 1, "SELECT * { { ?s <tag:q> ?o } UNION { { SELECT ?s { ?s <tag:p> ?o } OFFSET 5 } } }".into()),
         ("nested-slice", 1, "SELECT * { { ?s <tag:q> ?o } UNION { { SELECT ?z { ?s <tag:p> ?o } OFFSET 1 LIMIT 1 } } }".into()),
+        // known finding EXISTS-SUBSELECT-DROPS-OUTER: a sub-select directly inside an EXISTS group, and a FILTER / BIND of the
+        // group above it that reads an outer variable the sub-select does not project (18.6 substitutes it; the engine's
+        // projection drops the pre-bound variable).  FILTER EXISTS, FILTER NOT EXISTS, EXISTS evaluated inside GRAPH, GRAPH
+        // inside the group, BIND above the sub-select, a sub-select correlated through a projected variable
+        ("exists-subselect", 2, "SELECT ?x { ?x <tag:n> ?a FILTER EXISTS { { SELECT ?y { ?y <tag:n> ?b } } FILTER(?a > 26) } }".into()),
+        ("exists-subselect", 2, "SELECT ?x { ?x <tag:n> ?a FILTER NOT EXISTS { { SELECT ?y { ?y <tag:n> ?b } } FILTER(?a > 26) } }".into()),
+        ("exists-subselect", 2, "SELECT * { GRAPH ?g { ?x <tag:n> ?a FILTER EXISTS { { SELECT ?y { ?y <tag:n> ?b } } FILTER(?a > 10) } } }".into()),
+        ("exists-subselect", 2, "SELECT ?x { ?x <tag:n> ?a FILTER EXISTS { GRAPH <tag:g1> { { SELECT ?y { ?y <tag:q> ?z } } FILTER(?a < 26) } } }".into()),
+        ("exists-subselect", 2, "SELECT ?x { ?x <tag:n> ?a FILTER EXISTS { { SELECT ?y { ?y <tag:n> ?b } } BIND(?a + 1 AS ?c) FILTER(?c = 31) } }".into()),
+        ("exists-subselect", 2, "SELECT ?x { ?x <tag:n> ?a FILTER EXISTS { { SELECT DISTINCT ?x ?y { ?x <tag:p> ?y } } FILTER(?a > 26) } }".into()),
+        // the same groups with the outer variable projected by the sub-select: the engine agrees with 18.6
+        ("exists-subselect-projected", 2, "SELECT ?x { ?x <tag:n> ?a FILTER EXISTS { { SELECT ?y ?a { ?y <tag:n> ?b } } FILTER(?a > 26) } }".into()),
+        ("exists-subselect-projected", 2, "SELECT ?x { ?x <tag:n> ?a FILTER NOT EXISTS { { SELECT ?x ?a { ?x <tag:p> ?y } } BIND(?a + 1 AS ?c) FILTER(?c = 31) } }".into()),
     ]
 }
 fn directed_datasets() -> Vec<Vec<Quad4>> {
@@ -1291,6 +1377,7 @@ fn exists_shapes(p: &Pat, inside_graph: bool, depth: usize, out: &mut BTreeSet<S
         if flags.0 { out.insert("exists:group-with-GRAPH".into()); }
         if flags.1 { out.insert("exists:group-with-BIND".into()); }
         if flags.2 { out.insert("exists:group-with-FILTER".into()); }
+        if let Some(vs) = subselect_chain(q) { let mut reads = BTreeSet::new(); chain_reads(q, &mut reads); out.insert(if reads.iter().any(|v| !vs.contains(v)) { "exists:FILTER/BIND-above-a-sub-select-reads-a-variable-it-does-not-project (directed only)".into() } else { "exists:group-over-a-sub-select".to_string() }); }
         if ev.iter().any(|v| !tv.contains(v)) { out.insert("exists:FILTER/BIND-of-the-group-uses-a-variable-absent-from-its-triple-patterns".into()); }
         for n in &nested { let (mut tv2, mut ev2, mut n2, mut f2) = (BTreeSet::new(), BTreeSet::new(), vec![], (false, false, false)); group_shape(n, &mut tv2, &mut ev2, &mut n2, &mut f2);
             if tv2.iter().chain(ev2.iter()).any(|v| !tv.contains(v)) { out.insert("exists:nested-group-uses-a-variable-absent-from-the-enclosing-group's-triple-patterns".into()); } }
@@ -1317,7 +1404,7 @@ fn main() {
     let a = parse_args();
     std::panic::set_hook(Box::new(|_| {}));
     let mut sum = Summary::default();
-    sum.rule = "case = (dataset: default graph + 0..3 named graphs (one named by a blank node) sharing triples drawn from a pool with integers incl. isize::MIN/MAX, big and ill-typed ones, strings, booleans, decimals, doubles, dateTime, custom datatypes, language tags in both cases, quoted triples; query from the supported grammar: <= 4 triple patterns per BGP with repeated variables, blank node placeholders, quoted triple patterns, nested UNION / GRAPH (constant, variable, absent name) / FILTER (comparisons, BOUND, sameTerm, type errors) / BIND / sub-select / DISTINCT / projection / ORDER BY / OFFSET-LIMIT, [NOT] EXISTS (in FILTER, under connectives, in BIND and SELECT expressions) over GROUPS with FILTER / BIND / nested EXISTS / GRAPH that read variables of the enclosing group absent from the group's triple patterns (18.6 substitution; oracle by carrying the substitution out), comparisons over integer arithmetic that leaves the isize range and comes back; a second random stream of one BGP tested by one EXISTS group; or one of the directed queries incl. every unsupported operator); \
+    sum.rule = "case = (dataset: default graph + 0..3 named graphs (one named by a blank node) sharing triples drawn from a pool with integers incl. isize::MIN/MAX, big and ill-typed ones, strings, booleans, decimals, doubles, dateTime, custom datatypes, language tags in both cases, quoted triples; query from the supported grammar: <= 4 triple patterns per BGP with repeated variables, blank node placeholders, quoted triple patterns, nested UNION / GRAPH (constant, variable, absent name) / FILTER (comparisons, BOUND, sameTerm, type errors) / BIND / sub-select / DISTINCT / projection / ORDER BY / OFFSET-LIMIT, [NOT] EXISTS (in FILTER, under connectives, in BIND and SELECT expressions) over GROUPS with FILTER / BIND / nested EXISTS / GRAPH that read variables of the enclosing group absent from the group's triple patterns (18.6 substitution; oracle by carrying the substitution out; sub-selects inside the group are decided when they hide no variable bound outside -- directed queries only, known finding EXISTS-SUBSELECT-DROPS-OUTER), comparisons over integer arithmetic that leaves the isize range and comes back; a second random stream of one BGP tested by one EXISTS group; or one of the directed queries incl. every unsupported operator); \
 non-trivial = the engine returned at least one row / true, or an error was expected; distinct = distinct (query text, dataset)".into();
     let base = Rng::new(a.seed);
     let dir = directed();
@@ -1347,6 +1434,7 @@ non-trivial = the engine returned at least one row / true, or an error was expec
     let range: Vec<usize> = match a.only { Some(i) => vec![i], None => (0..total).collect() };
     for idx in range {
         EXOTIC_OPERAND.with(|f| f.set(false));
+        SUBSELECT_DROPS_OUTER.with(|f| f.set(false));
         let mut r = base.fork(idx as u64);
         let (label, di, text) = if idx < dir.len() { let (l, d, q) = &dir[idx]; (*l, *d, q.clone()) } else {
             let di = r.below(datasets.len());
@@ -1378,16 +1466,36 @@ non-trivial = the engine returned at least one row / true, or an error was expec
                 Err(OErr::Unsupported) => unreachable!(),
                 Err(OErr::Undetermined(why)) => { sum.bump(&format!("oracle-undetermined:{why}")); }
                 Ok((mus, slice)) => {
-                    let expected_n = match slice { None => mus.len(), Some((s, l)) => { let rest = mus.len().saturating_sub(s); l.map_or(rest, |l| l.min(rest)) } };
+                    let count = |mus: &[Mu], slice: Option<(usize, Option<usize>)>| match slice { None => mus.len(), Some((s, l)) => { let rest = mus.len().saturating_sub(s); l.map_or(rest, |l| l.min(rest)) } };
+                    let expected_n = count(&mus, slice);
+                    // is the engine's answer the one that these solutions (and the outermost OFFSET / LIMIT) prescribe?
+                    let answers = |mus: &[Mu], slice: Option<(usize, Option<usize>)>| -> bool {
+                        let n = count(mus, slice);
+                        match &obs {
+                            Obs::Bool(b) if is_ask => *b == (n > 0),
+                            Obs::Rows(vars, rows) if !is_ask => { let (got, want) = (canon_rows(vars, rows), canon_mus(vars, mus)); if slice.is_none() { got == want } else { rows.len() == n && sub_multiset(&got, &want) } }
+                            _ => false,
+                        }
+                    };
+                    // the known finding EXISTS-SUBSELECT-DROPS-OUTER: the tag is given only when the oracle met an EXISTS group of
+                    // exactly that shape with a solution binding the dropped variable AND the engine's answer is the one the
+                    // engine's reading of such groups (ENGINE_PROJECT_READING) produces
+                    let tagged = |d: String| -> String {
+                        if !SUBSELECT_DROPS_OUTER.with(|f| f.get()) { return d }
+                        let exotic_before = EXOTIC_OPERAND.with(|f| f.get());
+                        ENGINE_PROJECT_READING.with(|f| f.set(true));
+                        let alt = eval_top(pat, &ds);
+                        ENGINE_PROJECT_READING.with(|f| f.set(false));
+                        EXOTIC_OPERAND.with(|f| f.set(exotic_before));
+                        match alt { Ok((m, s)) if answers(&m, s) => format!("EXISTS-SUBSELECT-DROPS-OUTER: {text} -- the projection of a sub-select inside an EXISTS group drops the variables bound outside the group, so the FILTER / BIND of the group above the sub-select read them as unbound (18.6 substitutes them): {d}"), _ => d }
+                    };
                     match &obs {
-                        Obs::Bool(b) if is_ask => { sum.bump("expected:ask"); if *b { nontrivial = true } if *b != (expected_n > 0) { sum.oracle_failures.push((idx.to_string(), describe(&format!("{}", expected_n > 0)))) } }
+                        Obs::Bool(b) if is_ask => { sum.bump("expected:ask"); if *b { nontrivial = true } if !answers(&mus, slice) { sum.oracle_failures.push((idx.to_string(), tagged(describe(&format!("{}", expected_n > 0))))) } }
                         Obs::Rows(vars, rows) if !is_ask => {
                             sum.bump("expected:rows");
                             if !rows.is_empty() { nontrivial = true }
-                            let got = canon_rows(vars, rows);
                             let want = canon_mus(vars, &mus);
-                            let ok = if slice.is_none() { got == want } else { rows.len() == expected_n && sub_multiset(&got, &want) };
-                            if !ok { sum.oracle_failures.push((idx.to_string(), describe(&format!("{} solution(s){}: {:?}", expected_n, if slice.is_some() { " taken from" } else { "" }, want)))) }
+                            if !answers(&mus, slice) { sum.oracle_failures.push((idx.to_string(), tagged(describe(&format!("{} solution(s){}: {:?}", expected_n, if slice.is_some() { " taken from" } else { "" }, want))))) }
                             sum.bump(&format!("rows:{}", match rows.len() { 0 => "0", 1 => "1", 2..=9 => "2-9", _ => "10+" }));
                         }
                         _ => { sum.bump("engine:error-on-supported-query"); sum.oracle_failures.push((idx.to_string(), describe("solutions (no operator is unsupported)"))) }
